@@ -268,8 +268,8 @@ class RecBudget(Budget):
         super().__init__(max_retries=max_retries, window_s=window_s)
         self._env = env
 
-    def consume(self, cost: int = 1) -> bool:
-        ok = super().consume(cost)
+    def consume(self, cost: int = 1, *args, **kwargs) -> bool:
+        ok = super().consume(cost, *args, **kwargs)
         if getattr(self._env, "_ext_consumer", False):
             # another consumer sharing this budget (modelled at an instant the scenario picked)
             self._env.ev("BUDGET", cost=cost, granted=ok, ext=True)
@@ -374,8 +374,14 @@ class _SizedStrategy:
         return 0
 
 
+import contextvars  # noqa: E402
+
+CURRENT_CALL: contextvars.ContextVar = contextvars.ContextVar("vsim_current_call", default=None)
+
+
 class CallState:
     """Per-call script position and counters."""
+    env_id = None
 
     def __init__(self, cid, script: dict) -> None:
         self.cid = cid
@@ -443,6 +449,10 @@ class Env:
                 t = None
             if t is not None and t in self._cs_by_task:
                 return self._cs_by_task[t]
+            # a helper task the library spawned on behalf of a call inherits the call's context
+            v = CURRENT_CALL.get()
+            if v is not None and v.env_id == id(self):
+                return v
         return self.cur
 
     def fired(self, kind: str) -> None:
@@ -527,11 +537,36 @@ class Env:
         return v
 
     # -- the operation ----------------------------------------------------
+    def op_for(self, cid: int, is_async: bool):
+        """the operation *of call cid*: a distinct callable per call, so that an attempt of one call that invokes
+        another call's operation (state shared between overlapping calls) shows up in the trace"""
+        env = self
+        if is_async:
+            async def op():
+                env._op_owner = cid
+                return await env.op_async()
+        else:
+            def op():
+                env._op_owner = cid
+                return env.op_sync()
+        return op
+
     def _op_pre(self):
         cs = self.cs()
         k = cs.count("op") + 1
         step = self._untie(cs.attempts[min(k - 1, len(cs.attempts) - 1)])
-        self.ev("OP_BEGIN", k=k)
+        if step.get("detach_breaker"):
+            # a kill switch / hot reconfiguration: the policy's breaker attribute is cleared while the call is in flight
+            for t in getattr(self, "policy_targets", []):
+                if getattr(t, "circuit_breaker", None) is not None:
+                    t.circuit_breaker = None
+                    self.fired("breaker_detached")
+        owner = getattr(self, "_op_owner", None)
+        self._op_owner = None
+        if owner is not None and owner != cs.cid:
+            self.ev("OP_BEGIN", k=k, wrong_owner=owner)
+        else:
+            self.ev("OP_BEGIN", k=k)
         return cs, k, step
 
     def _untie(self, step):
@@ -569,6 +604,13 @@ class Env:
                 # the very same exception object surfaces again in another call / through another policy
                 # (memoised failure, Future.result(), module-level error singleton): its own class travels with it
                 e = shared
+            elif step.get("reuse_refreshed") and prev is not None and type(prev) in (SimError, SimRuntimeError, SimOSError):
+                # one cached error object, refreshed in place before it is raised again: what the classifier says about
+                # it now differs from what it said last time
+                e = prev
+                e.cls = step["cls"]
+                e.retry_after = step.get("ra")
+                e.status = STATUS_OF.get(step["cls"])
             elif step.get("reuse") and prev is not None and prev.cls == step["cls"] and prev.retry_after == step.get("ra"):
                 e = prev          # the operation re-raises a cached exception object (e.g. Future.result() of a failed future)
             else:
@@ -677,8 +719,9 @@ class Env:
 
     def _classification(self, cs, cls, ra):
         shape = self.cfg.get("cls_shape", "enum")
-        if shape == "obj" or ra is not None:
-            c = Classification(klass=ErrorClass[cls], retry_after_s=None if ra is None else ra / 1e6)
+        if shape in ("obj", "obj_details") or ra is not None:
+            c = Classification(klass=ErrorClass[cls], retry_after_s=None if ra is None else ra / 1e6,
+                               **({"details": {"realm": "api", "code": cls.lower()}} if shape == "obj_details" else {}))
             cs.last_cls_obj = c
             return c
         cs.last_cls_obj = None
@@ -756,6 +799,10 @@ class Env:
         self.ev("STRATEGY", which=which, style=style, attempt=attempt,
                 cls=getattr(klass, "name", repr(klass)), prev=fnum(prev), remaining=fnum(remaining),
                 cause=cause, ra=fnum(ra), same_cls_obj=same, raw=fnum(raw), j=j)
+        sd = cs.s.get("strategy_dur")
+        if sd and sd[j % len(sd)]:
+            self.spend(sd[j % len(sd)])          # a slow strategy (I/O, lock contention): virtual time passes inside it
+            self.fired("slow_strategy")
         ext = cs.s.get("ext_consume")
         if ext and j in ext and getattr(self, "shared_budget", None) is not None:
             # a concurrent consumer of the shared budget gets its turn exactly while this strategy is being evaluated
@@ -799,6 +846,9 @@ class Env:
                 env.fired("sleep_decision")
             if d == "X":
                 return "sleep"  # invalid (plain str that is not a SleepDecision member by identity)
+            if d in ("d", "a"):
+                # the decision as a plain string read from configuration / JSON: equal to the enum member, not identical
+                return "".join(["de", "fer"]) if d == "d" else "".join(["ab", "ort"])
             return {"S": SleepDecision.SLEEP, "D": SleepDecision.DEFER, "A": SleepDecision.ABORT}[d]
 
         return handler
@@ -822,6 +872,7 @@ class Env:
             if f is not None:
                 raise f
             await env.pause(0, f"before_sleep{j}")
+            env.ev("BEFORE_SLEEP_END", j=j)
             f = env.fault("before_sleep_after", j)
             if f is not None:
                 raise f
